@@ -41,6 +41,22 @@ pub enum TOp {
     TakeLast(usize),
     /// `it.by_ref().step_by(2).take(k).count()`
     StepTake(usize),
+    /// `it.find(..)` matching the (k+1)-th item it is shown
+    Find(usize),
+    /// `it.position(..)` matching the (k+1)-th item
+    Position(usize),
+    /// `it.any(..)` true at the (k+1)-th item
+    AnyAt(usize),
+    /// `it.all(..)` false at the (k+1)-th item
+    AllUntil(usize),
+    /// `it.find_map(..)` matching the (k+1)-th item
+    FindMap(usize),
+    /// `it.by_ref().fold(..)`: consumes everything that is left
+    FoldAll,
+    /// `it.by_ref().max_by(..)`: consumes everything that is left
+    MaxAll,
+    /// `it.by_ref().skip_while(..)` dropping k items, then `next()`
+    SkipWhile(usize),
 }
 
 impl TOp {
@@ -61,11 +77,19 @@ impl TOp {
             TOp::RevTakeCount(_) => "rev_take_count",
             TOp::TakeLast(_) => "take_last",
             TOp::StepTake(_) => "step_take",
+            TOp::Find(_) => "find",
+            TOp::Position(_) => "position",
+            TOp::AnyAt(_) => "any",
+            TOp::AllUntil(_) => "all",
+            TOp::FindMap(_) => "find_map",
+            TOp::FoldAll => "fold_all",
+            TOp::MaxAll => "max_all",
+            TOp::SkipWhile(_) => "skip_while",
         }
     }
     fn k(&self) -> usize {
         match self {
-            TOp::Next | TOp::NextBack => 0,
+            TOp::Next | TOp::NextBack | TOp::FoldAll | TOp::MaxAll => 0,
             TOp::Nth(k)
             | TOp::NthBack(k)
             | TOp::TakeCount(k)
@@ -75,7 +99,13 @@ impl TOp {
             | TOp::SkipNext(k)
             | TOp::RevTakeCount(k)
             | TOp::TakeLast(k)
-            | TOp::StepTake(k) => *k,
+            | TOp::StepTake(k)
+            | TOp::Find(k)
+            | TOp::Position(k)
+            | TOp::AnyAt(k)
+            | TOp::AllUntil(k)
+            | TOp::FindMap(k)
+            | TOp::SkipWhile(k) => *k,
         }
     }
     fn make(name: &str, k: usize) -> Result<TOp, String> {
@@ -92,10 +122,18 @@ impl TOp {
             "rev_take_count" => TOp::RevTakeCount(k),
             "take_last" => TOp::TakeLast(k),
             "step_take" => TOp::StepTake(k),
+            "find" => TOp::Find(k),
+            "position" => TOp::Position(k),
+            "any" => TOp::AnyAt(k),
+            "all" => TOp::AllUntil(k),
+            "find_map" => TOp::FindMap(k),
+            "fold_all" => TOp::FoldAll,
+            "max_all" => TOp::MaxAll,
+            "skip_while" => TOp::SkipWhile(k),
             _ => return Err(format!("bad typed op {name}")),
         })
     }
-    pub const NAMES: [&'static str; 12] = [
+    pub const NAMES: [&'static str; 20] = [
         "next",
         "next_back",
         "nth",
@@ -108,6 +146,14 @@ impl TOp {
         "rev_take_count",
         "take_last",
         "step_take",
+        "find",
+        "position",
+        "any",
+        "all",
+        "find_map",
+        "fold_all",
+        "max_all",
+        "skip_while",
     ];
 }
 
@@ -277,6 +323,57 @@ macro_rules! apply_ops {
             },
             TOp::StepTake(k) => {
                 let _ = Iterator::count($it.by_ref().step_by(2).take(*k));
+            },
+            TOp::Find(k) => {
+                let mut seen = 0usize;
+                let _ = $it.find(|_| {
+                    seen += 1;
+                    seen > *k
+                });
+            },
+            TOp::Position(k) => {
+                let mut seen = 0usize;
+                let _ = $it.position(|_| {
+                    seen += 1;
+                    seen > *k
+                });
+            },
+            TOp::AnyAt(k) => {
+                let mut seen = 0usize;
+                let _ = Iterator::any(&mut $it, |_| {
+                    seen += 1;
+                    seen > *k
+                });
+            },
+            TOp::AllUntil(k) => {
+                let mut seen = 0usize;
+                let _ = Iterator::all(&mut $it, |_| {
+                    seen += 1;
+                    seen <= *k
+                });
+            },
+            TOp::FindMap(k) => {
+                let mut seen = 0usize;
+                let _ = $it.find_map(|_| {
+                    seen += 1;
+                    if seen > *k { Some(()) } else { None }
+                });
+            },
+            TOp::FoldAll => {
+                let _ = $it.by_ref().fold(0usize, |a, _| a + 1);
+            },
+            TOp::MaxAll => {
+                let _ = Iterator::max_by($it.by_ref(), |_, _| std::cmp::Ordering::Less);
+            },
+            TOp::SkipWhile(k) => {
+                let mut seen = 0usize;
+                let _ = $it
+                    .by_ref()
+                    .skip_while(|_| {
+                        seen += 1;
+                        seen <= *k
+                    })
+                    .next();
             },
             _ => unreachable!(),
         }
@@ -556,7 +653,7 @@ pub fn directed(max_len: usize) -> Vec<Typed> {
             for name in TOp::NAMES {
                 for k in 0..=3usize {
                     let op = TOp::make(name, k).unwrap();
-                    if matches!(op, TOp::Next | TOp::NextBack) && k > 0 {
+                    if matches!(op, TOp::Next | TOp::NextBack | TOp::FoldAll | TOp::MaxAll) && k > 0 {
                         continue;
                     }
                     if de || !op.needs_de() {
